@@ -18,6 +18,8 @@ var verifProbeErr = errors.New("verif: probe could not connect")
 //	0 failed response (5xx)   1 good response   2 probe starts
 //	3 in-flight probe completes OK   4 in-flight probe fails   5 time passes
 //	6 client request (eligibility + dispatch)   7 admin / metrics read
+//	8 (round_robin only) a failed response of ANOTHER backend of the pool, which
+//	  lives on the same host under a different port: it says nothing about this one
 //
 // against ghost state written from the property statement.
 func VerifC04History(strategy int, k int) {
@@ -32,6 +34,14 @@ func VerifC04History(strategy int, k int) {
 	lb.strategy.AddBackend(b)
 	lb.metricsCollector.UpdateBackendHealth(b.Name, true)
 	r := verifRequest("10.1.2.3:4711")
+	events := 8
+	var other *Backend
+	if strategy == 0 {
+		events = 9
+		other = verifBackend(1)
+		lb.strategy.AddBackend(other)
+		lb.metricsCollector.UpdateBackendHealth(other.Name, true)
+	}
 
 	now := int64(0)
 	ejected := false // ghost: an ejection happened and its window has not been observed to end
@@ -43,8 +53,12 @@ func VerifC04History(strategy int, k int) {
 	inWindow := func() bool { return ejected && now-ejectedAt < win }
 
 	for i := 0; i < k; i++ {
-		ev := verifrt.Choice("event", 8)
+		ev := verifrt.Choice("event", events)
 		switch ev {
+		case 8:
+			wasHealthy, wasUntil := b.IsHealthy, b.UnhealthyUntil
+			lb.recordRequestMetrics(other, 500+verifrt.IntRange("status5xx", 0, 99), verifrt.Now(), r)
+			verifrt.Assert(b.IsHealthy == wasHealthy && b.UnhealthyUntil.Equal(wasUntil), "another backend's failed responses do not change this backend's health state")
 		case 0:
 			preHealthy, preUntil := b.IsHealthy, b.UnhealthyUntil
 			lb.recordRequestMetrics(b, 500+verifrt.IntRange("status5xx", 0, 99), verifrt.Now(), r)
@@ -93,7 +107,7 @@ func VerifC04History(strategy int, k int) {
 			now += dt
 		case 6:
 			got := lb.findHealthyBackend(r)
-			verifrt.Assert(verifrt.Implies(inWindow(), got == nil), "an ejected backend receives no traffic during its unhealthy window")
+			verifrt.Assert(verifrt.Implies(inWindow(), got != b), "an ejected backend receives no traffic during its unhealthy window")
 		case 7:
 			in := inWindow()
 			infos := lb.ListBackends()
@@ -119,8 +133,7 @@ func VerifC04Recovery(strategy int, n int) {
 		bs[1].ActiveConnections = 5 // the recovered backend has the strictly minimal gauge
 	}
 	if s, ok := lb.strategy.(*RoundRobinStrategy); ok {
-		s.current = verifrt.Uint64("rotation")
-		verifrt.Assume(s.current < 1<<63)
+		verifSetRotation(&s.current)
 	}
 	lb.MarkBackendUnhealthy(bs[0], time.Duration(win))
 	verifrt.Advance(time.Duration(win + 1 + int64(verifrt.IntRange("extra", 0, 1<<40))))
